@@ -175,12 +175,33 @@ func validateTypeRestrictions(typesys *typesystem.TypeSystem, tk *openfgav1.Tupl
 	return fmt.Errorf("type '%s' is not an allowed type restriction for '%s#%s'", userType, objectType, tk.GetRelation())
 }
 
+// typeRestrictionFitsUser reports whether a type restriction applies to the given user, with the same three cases
+// validateTypeRestrictions distinguishes: a userset restriction (type#relation) fits usersets of that type and
+// relation, a wildcard restriction (type:*) fits the typed wildcard, and a plain type restriction fits concrete
+// objects of that type. The restriction's condition is not looked at.
+func typeRestrictionFitsUser(typeRestriction *openfgav1.RelationReference, user string) bool {
+	userObject, userRelation := tuple.SplitObjectRelation(user)
+	userType, _ := tuple.SplitObject(userObject)
+
+	if typeRestriction.GetType() != userType {
+		return false
+	}
+
+	if tuple.IsObjectRelation(user) {
+		return typeRestriction.GetRelation() == userRelation
+	}
+
+	if tuple.IsTypedWildcard(user) {
+		return typeRestriction.GetWildcard() != nil
+	}
+
+	return typeRestriction.GetWildcard() == nil && typeRestriction.GetRelation() == ""
+}
+
 // validateCondition returns an error if the condition of the tuple is required but not present,
 // or if the tuple provides a condition but it is invalid according to the model.
 func validateCondition(typesys *typesystem.TypeSystem, tk *openfgav1.TupleKey) error {
 	objectType := tuple.GetType(tk.GetObject())
-	userType := tuple.GetType(tk.GetUser())
-	userRelation := tuple.GetRelation(tk.GetUser())
 
 	typeRestrictions, err := typesys.GetDirectlyRelatedUserTypes(objectType, tk.GetRelation())
 	if err != nil {
@@ -193,20 +214,7 @@ func validateCondition(typesys *typesystem.TypeSystem, tk *openfgav1.TupleKey) e
 				continue
 			}
 
-			if directlyRelatedType.GetType() != userType {
-				continue
-			}
-
-			if directlyRelatedType.GetRelationOrWildcard() != nil {
-				if directlyRelatedType.GetRelation() != "" && directlyRelatedType.GetRelation() != userRelation {
-					continue
-				}
-
-				if directlyRelatedType.GetWildcard() != nil && !tuple.IsTypedWildcard(tk.GetUser()) {
-					continue
-				}
-			} else if tuple.IsTypedWildcard(tk.GetUser()) {
-				// This is a wildcard tuple but the directlyRelatedType tuple is not for wildcard.
+			if !typeRestrictionFitsUser(directlyRelatedType, tk.GetUser()) {
 				continue
 			}
 
@@ -233,7 +241,7 @@ func validateCondition(typesys *typesystem.TypeSystem, tk *openfgav1.TupleKey) e
 
 	validCondition := false
 	for _, directlyRelatedType := range typeRestrictions {
-		if directlyRelatedType.GetType() == userType && directlyRelatedType.GetCondition() == tk.GetCondition().GetName() {
+		if directlyRelatedType.GetCondition() == tk.GetCondition().GetName() && typeRestrictionFitsUser(directlyRelatedType, tk.GetUser()) {
 			validCondition = true
 			break
 		}
